@@ -614,6 +614,29 @@ func (g *genState) genCase(id string) {
 			g.nextSnap++
 			g.emit("q fresh %s init", k[0])
 		}
+		if r.Chance(g.weight(4, "C07 C08", 4)) {
+			// an iterator is created in a write transaction, advanced with that transaction (it observes the
+			// committed objects), and only then does the transaction delete one of them: the deletion is made
+			// under a tracker that exists only in the transaction's own table entry, and must be retained
+			tb := r.Intn(2)
+			did := g.pickID()
+			id := g.nextIter
+			g.nextIter++
+			g.emit("begin %d", tb)
+			g.emit("changes %d %d", id, tb)
+			g.emit("next %d txn all", id)
+			g.emit("delete %d %s", tb, hx.Hex(did))
+			g.emit("commit %d", g.nextSnap)
+			g.locked = map[int]bool{tb: true}
+			g.sh.begin(g.locked)
+			g.sh.delete(tb, false, 0, did, true)
+			g.sh.commit()
+			g.snaps = append(g.snaps, g.nextSnap)
+			g.nextSnap++
+			g.iters[id] = tb
+			g.emit("next %d fresh all", id)
+			g.itSnap[id] = len(g.snaps)
+		}
 		if len(g.iters) > 0 && r.Chance(g.weight(5, "C07 C08", 4)) {
 			// an iterator is advanced with a write transaction that has deleted an observed object, the transaction
 			// commits, a complete collection runs, and only then is the iterator advanced again
